@@ -63,8 +63,12 @@ pub fn calibrate() -> f64 {
 }
 
 /// The work a call literally requests, in units of "touch one cell / move one row".
-fn work_units(call: &Call, cols: usize, rows: usize, lines_before: usize, lines_after: usize, pm: &mut PModel) -> u64 {
+fn work_units(call: &Call, cols: usize, rows: usize, lines_before: usize, lines_after: usize, parked: (usize, usize), pm: &mut PModel) -> u64 {
     let area = (cols * rows) as u64;
+    // a screen switch (or reset) re-wraps the PARKED buffer, which resizes meanwhile left at its old
+    // width, to the current size: the work of the deferred resize (same model as `Resize` below)
+    let (pcols, plen) = parked;
+    let deferred = if pcols != cols { 4 * ((plen * pcols) as u64 * (1 + pcols as u64 / cols.max(1) as u64) + plen as u64 * cols as u64) } else { 0 };
     match call {
         Call::FeedStr(s) | Call::Feed(s) => {
             let mut w = 0u64;
@@ -74,7 +78,8 @@ fn work_units(call: &Call, cols: usize, rows: usize, lines_before: usize, lines_
                     w += match f {
                         F::Print(_) => (cols + rows) as u64,
                         F::Rep(n) => (n.max(1) as u64) * (cols + rows) as u64,
-                        F::Ed(_) | F::Decaln | F::Decset(_) | F::Decrst(_) | F::Ris => 2 * area + lines_before as u64 * cols as u64,
+                        F::Decset(_) | F::Decrst(_) | F::Ris => 2 * area + lines_before as u64 * cols as u64 + deferred,
+                        F::Ed(_) | F::Decaln => 2 * area + lines_before as u64 * cols as u64,
                         _ => area.min(64 * (cols + rows) as u64) + (cols + rows) as u64,
                     };
                 }
@@ -88,7 +93,11 @@ fn work_units(call: &Call, cols: usize, rows: usize, lines_before: usize, lines_
             // O(cells x cols/c).  That factor is part of the work model, not a finding (DESIGN 11).
             let cells_before = lines_before as u64 * cols as u64;
             let narrowing = 1 + (cols as u64) / (*c as u64).max(1);
-            4 * (cells_before * narrowing + lines_after as u64 * *c as u64 + (*c * *r) as u64 + area) + 64
+            // every line held before the call is brought to the new width before rows are dropped
+            // or trimmed (2x111 -> 65535x1 writes 111 lines of 65535 cells and keeps one): that is
+            // work for the size literally requested, too (DESIGN 11)
+            let rewidth = lines_before as u64 * *c as u64;
+            4 * (cells_before * narrowing + rewidth + lines_after as u64 * *c as u64 + (*c * *r) as u64 + area) + 64
         }
     }
 }
@@ -159,13 +168,17 @@ fn run(h: &History, seed: u64, with_queries: bool) -> Option<Suspect> {
         PROGRESS.with(|p| p.set(i + 1));
         let (cols, rows) = vt.size();
         let before = vt.lines().len();
+        let parked = {
+            let hs = vt.verif_state();
+            (hs.other_buffer.cols, hs.other_buffer.len)
+        };
         let t0 = cpu_ns();
         let out = apply(&mut vt, call, Handling::pick(&mut r));
         let dt = cpu_ns().saturating_sub(t0);
         let after = vt.lines().len();
         std::hint::black_box(&out);
         if npu > 0.0 && dt > EXAMINE_NS {
-            let w = work_units(call, cols, rows, before, after, &mut pm);
+            let w = work_units(call, cols, rows, before, after, parked, &mut pm);
             // 200x the calibrated cost plus a constant
             let budget = (5_000_000.0 + 200.0 * npu * w as f64) as u64;
             if dt > budget && worst.as_ref().map_or(true, |s| dt > s.ns) {
